@@ -550,6 +550,18 @@ Proof. exact (conj rn_float_of_tok_finite rn_float_of_tok_doubles). Qed.
 Check C06_exact_reader_sound : fot_finite rn_float_of_tok /\ fot_doubles rn_float_of_tok.
 Print Assumptions C06_exact_reader_sound.
 
+(* the reader of the instance is the float_roundtrip configuration of C16's line-by-line
+   transcription of serde_json's number parser (NumText.serde_number true), read on the token's text *)
+Require Import Blots.NumText Blots.proofs.JsonInstanceC16.
+Theorem C06_exact_reader_is_serde_float_roundtrip : forall t,
+  tok_wf t = true -> tok_is_float t = true -> tok_exp_small t ->
+  serde_number true (render_tok t) = match rn_float_of_tok t with Some x => Ok x | None => Err end.
+Proof. exact serde_number_is_rn_float_of_tok. Qed.
+Check C06_exact_reader_is_serde_float_roundtrip : forall t,
+  tok_wf t = true -> tok_is_float t = true -> tok_exp_small t ->
+  serde_number true (render_tok t) = match rn_float_of_tok t with Some x => Ok x | None => Err end.
+Print Assumptions C06_exact_reader_is_serde_float_roundtrip.
+
 (* the text-level theorems for the instance: no hypothesis on the library left *)
 Theorem C06_json_text_roundtrip_exact : forall j,
   json_wf j = true -> json_doubles j = true -> (jdepth j <= 127)%nat ->
